@@ -9,6 +9,7 @@ From stdpp Require Import gmap.
 From Coq Require Import ZArith NArith List.
 Require Import Regen.Ledger.Types Regen.Ledger.Msgs Regen.Ledger.Step Regen.Ledger.Determinism.
 Require Import Regen.Ledger.SpellingModel Regen.Ledger.Spelling.
+Require Import Regen.Ledger.InvAllLib Regen.Ledger.InvAllRun Regen.Ledger.Tx.
 Import ListNotations.
 
 Theorem C10_failed_no_trace : forall e s m s' o,
@@ -30,3 +31,25 @@ Theorem C10_failed_message_no_trace_in_any_spelling : forall sp e s m,
   (forall r evs, (deliver_sp sp e s m).2 <> OOk r evs) -> (deliver_sp sp e s m).1 = s.
 Proof. exact deliver_sp_failed_no_effect. Qed.
 Print Assumptions C10_failed_message_no_trace_in_any_spelling.
+
+(* ---- transactions of several messages (Ledger/Tx.v) ----
+   ValidateBasic of every message, then the handlers in order on one cache-wrapped store that is written back only if
+   all succeed.  A transaction with an invalid message or a failing handler leaves no trace, also when earlier
+   messages of it had already run. *)
+Theorem C10_failed_transaction_no_trace : forall e s ms,
+  forallb validate_basic ms = false \/ run_handlers e s ms = None -> deliver_tx e s ms = s.
+Proof. exact deliver_tx_failed_no_effect. Qed.
+Print Assumptions C10_failed_transaction_no_trace.
+
+Theorem C10_single_message_transaction_is_deliver : forall e s m, deliver_tx e s [m] = (deliver e s m).1.
+Proof. exact deliver_tx_single. Qed.
+Print Assumptions C10_single_message_transaction_is_deliver.
+
+(* a transaction reaches nothing that single-message deliveries do not reach: every theorem over [reaches] covers it *)
+Theorem C10_transactions_add_nothing_to_reachability : forall e s ms, reaches s (deliver_tx e s ms).
+Proof. exact deliver_tx_reaches. Qed.
+Print Assumptions C10_transactions_add_nothing_to_reachability.
+
+Theorem C10_transactions_preserve_the_invariants : forall e s ms, Inv_run s -> Inv_run (deliver_tx e s ms).
+Proof. exact deliver_tx_preserves_run. Qed.
+Print Assumptions C10_transactions_preserve_the_invariants.
